@@ -835,7 +835,7 @@ class Taint:
             if t["k"] == "call" and bi != site_bb and t.get("resolved_local") and t.get("resolved") in self.f.bodies:
                 cb = self.f.bodies[t["resolved"]]
                 rty = b["locals"][t["dest"][0]]["s"] if t.get("dest") else ""
-                if rty.startswith(("std::result::Result<", "std::option::Option<")) and len(cb["blocks"]) <= 60:
+                if rty.startswith(("std::result::Result<", "std::option::Option<")) and len(cb["blocks"]) <= 60 and not cb.get("pub"):
                     for k2, a in enumerate(t["args"], start=1):
                         if a[0] not in ("copy", "move") or k2 > cb["argc"]:
                             continue
@@ -880,6 +880,10 @@ class Taint:
         if cb["id"] in memo:
             return memo[cb["id"]]
         memo[cb["id"]] = False
+        if cb.get("pub"):
+            # only private helpers (an extracted validation): a public conversion such as Primitive::as_u32 compares for the sign, which
+            # says nothing about the size its callers need
+            return False
         sites = []
         for i, j, st in F.stmts(cb):
             if st[0] == "assign" and st[1] == [0]:
@@ -968,7 +972,7 @@ class Taint:
             if t["k"] == "call" and bi != site_bb and t.get("resolved_local") and t.get("resolved") in self.f.bodies:
                 cb = self.f.bodies[t["resolved"]]
                 rty = b["locals"][t["dest"][0]]["s"] if t.get("dest") else ""
-                if rty.startswith(("std::result::Result<", "std::option::Option<")) and len(cb["blocks"]) <= 60:
+                if rty.startswith(("std::result::Result<", "std::option::Option<")) and len(cb["blocks"]) <= 60 and not cb.get("pub"):
                     for k, a in enumerate(t["args"], start=1):
                         if a[0] in ("copy", "move") and k <= cb["argc"] and self._compares_param(cb, k):
                             cmp_locals.add(a[1][0])
